@@ -759,10 +759,10 @@ def run(ctx: lib.Ctx) -> None:
                           {'self': addr, 'program': to_json(prog), 'text': prog_text(prog), 'observed': to_json(obs),
                            'expected': to_json(ref_run(addr, prog)[0]), 'repro': repro(addr, prog)})
     t_coq = time.time()
-    bad = ctx.coq_mismatches('tickets', IMPORTS, 'fun c => exec_from (fst c) (snd c)', 'obs_eqb', 'bytes * list instr',
-                             'result (list val)', cases, shard=125, prelude=prelude)
-    lbad = ctx.coq_mismatches('lenient', IMPORTS, 'fun c => exec_from (fst c) (snd c)', 'obs_eqb', 'bytes * list instr',
-                              'result (list val)', lenient_cases, shard=125, prelude=prelude)
+    allbad = ctx.coq_mismatches('tickets', IMPORTS, 'fun c => exec_from (fst c) (snd c)', 'obs_eqb', 'bytes * list instr',
+                                'result (list val)', cases + lenient_cases, shard=125, prelude=prelude)
+    bad = [i for i in allbad if i < len(cases)]
+    lbad = [i for i in allbad if i >= len(cases)]
     ctx.extra['lenient_acceptances'] = {'cases': len(lenient_cases), 'differ_from_model': len(lbad),
                                         'note': 'programs that ITER over a pair: outside Michelson typing, not part of the verdict'}
     ctx.extra['model_disagreements'] = len(bad) + len(direct_bad)
